@@ -64,7 +64,14 @@ func init() {
 		if err != nil {
 			drv.Fatal("%v", err)
 		}
-		o := drv.ChildOpts{WallSec: 3000, CrashIsViol: true, CrashSigPfx: "crash:"}
+		// A Writer or Reader that never returns is decided by a CPU budget per
+		// shard (RLIMIT_CPU), set >= 15x above what the heaviest shard needs on a
+		// loaded machine; the wall-clock watchdog stays inconclusive.
+		cpu := uint64(600)
+		if r.Thorough() {
+			cpu = 7200
+		}
+		o := drv.ChildOpts{CPUSec: cpu, WallSec: 6000, CrashIsViol: true, CrashSigPfx: "crash:"}
 		r.RunShards(bin, "C13", 16, []string{"C13"}, o)
 
 		if wantRace {
@@ -73,7 +80,7 @@ func init() {
 				drv.Fatal("%v", b.err)
 			}
 			logBase := filepath.Join(r.Scratch, "race")
-			ro := drv.ChildOpts{WallSec: 3000, CrashIsViol: true, CrashSigPfx: "crash(race-build):",
+			ro := drv.ChildOpts{CPUSec: cpu, WallSec: 6000, CrashIsViol: true, CrashSigPfx: "crash(race-build):",
 				Env: []string{"GORACE=halt_on_error=0 log_path=" + logBase, "C13_RACE=1"}}
 			nsh := 4
 			if r.Thorough() {
